@@ -373,6 +373,31 @@ theorem decoder_repl_returns (v : Gen.Variant) (k : Sink) (d : Decoder (famOfVar
     | none => exact absurd h hnp
     | some t => exact ⟨t, rfl⟩
 
+/-- the same for any family with the laws the variants have, and exactly the hypotheses of
+`decoder_repl_never_panics` plus the fuel bound of `replCall_terminates_any` (no `LoopInv`, any naturals as
+bytes): `fuel ≥ 10 · src.len() + 30` -/
+theorem decoder_repl_returns_any {F : Fam} (H : FamOk F) (hnb : NeedsBounded F) (hR : ∀ s, F.rank s ≤ 9)
+    (k : Sink) (d : Decoder F) (hf : Fresh d) (hfin : d.life ≠ .finished) (src : List Nat) (last : Bool)
+    (fuel : Nat) (bs : List (Budget × Budget)) (cap : Nat) (hcap : minCap k ≤ cap)
+    (hrep : (d.cur.call k (replayBytes d.life) false (bs.headD (.unlimited, .unlimited)).1).res = .outputFull →
+      cap < unitsOfList k (d.cur.call k (replayBytes d.life) false (bs.headD (.unlimited, .unlimited)).1).out
+        + (d.cur.call k (replayBytes d.life) false (bs.headD (.unlimited, .unlimited)).1).stopNeed)
+    (hfuel : 10 * src.length + 30 ≤ fuel) :
+    ∃ t, Decoder.replCall k last fuel d src bs = some (some t) := by
+  have hnp := C06Life.decoder_repl_never_panics H hnb k d hf hfin src last fuel bs cap hcap hrep
+  have hterm : Decoder.replCall k last fuel d src bs ≠ none := by
+    refine replCall_terminates_any H hR k last fuel d src bs ?_
+    have h1 := withheld_le_two d.life
+    have h2 := curRank_le hR d.cur
+    simp only [lifeMeasure]
+    omega
+  cases h : Decoder.replCall k last fuel d src bs with
+  | none => exact absurd h hterm
+  | some o =>
+    cases o with
+    | none => exact absurd h hnp
+    | some t => exact ⟨t, rfl⟩
+
 /-- **C06/C08, the contract of `decode_to_utf8` / `decode_to_utf16` in total form**:
 `Thm.C06Life.decoder_repl_call_contract` without the hypothesis that the call completed.  For a decoder
 reachable from `Decoder.new`, not `Finished`, a source of bytes, a destination of at least the
@@ -399,5 +424,25 @@ theorem decoder_repl_call_contract_total (v : Gen.Variant) (bom : BomHandling)
     cap hb hcap hrep hadm (some t) ht
   cases ht'
   exact ⟨t, ht, hrest⟩
+
+/-! ## Non-vacuity
+
+Shift_JIS with BOM sniffing, `FE 41 42 43 B1` in one `last` call, no stops: the first raw call withholds
+nothing (`last`), the byte `FE` is malformed → U+FFFD, the second raw call decodes the rest.  With
+`fuel = src.len() + 8 = 13` the call returns; with `fuel = 1` the model runs out of fuel after the first
+`Malformed` (so the fuel bound is not vacuous: `none` does occur below it). -/
+section demo
+private def dT : Decoder (famOfVariant .shiftJis) := Decoder.new (famOfVariant .shiftJis) (nominalOf .shiftJis) .sniff
+
+example : Decoder.replCall .utf8 true 13 dT [0xFE, 0x41, 0x42, 0x43, 0xB1] []
+    = some (some ⟨.inputEmpty, 5, [0xFFFD, 0x41, 0x42, 0x43, 0xFF71], true, ⟨.finished, .nominal none⟩⟩) := rfl
+
+example : Decoder.replCall .utf8 true 1 dT [0xFE, 0x41, 0x42, 0x43, 0xB1] [] = none := rfl
+
+/-- the hypotheses of `decoder_repl_returns` hold for it -/
+example : ∃ t, Decoder.replCall .utf8 true 13 dT [0xFE, 0x41, 0x42, 0x43, 0xB1] [] = some (some t) :=
+  decoder_repl_returns .shiftJis .utf8 dT 0 (loopInv_new .shiftJis .sniff) (by intro h; cases h)
+    [0xFE, 0x41, 0x42, 0x43, 0xB1] (by decide) true 13 [] 4 (by decide) (by intro h; cases h) (by decide)
+end demo
 
 end EncodingRs.Thm.C08ReplTerm
